@@ -58,7 +58,17 @@ func (s *verifSys) pull(from, to int, limit int) error { return s.pullTx(from, t
 
 // pullTx: as pull; withTx says whether the puller submits a fresh transaction first
 func (s *verifSys) pullTx(from, to int, limit int, withTx bool) error {
+	return s.pullKnown(from, to, limit, withTx, nil)
+}
+
+// pullKnown: as pullTx; a non-nil staleKnown stands for a request that was sent
+// BEFORE an earlier answer was processed (two overlapping syncs): the answer
+// then repeats events the puller has meanwhile received.
+func (s *verifSys) pullKnown(from, to int, limit int, withTx bool, staleKnown map[uint32]int) error {
 	known := s.nodes[to].c.knownEvents()
+	if staleKnown != nil {
+		known = staleKnown
+	}
 	diff, err := s.nodes[from].c.eventDiff(known)
 	if err != nil {
 		return err
